@@ -9,7 +9,7 @@ from vlib.shard import Acc
 PROP = "C01"
 META = {
     "level": "exploration",
-    "claim": "Held on the executed runs: generated one-sided, disjoint two-sided and same-path conflict histories (4-12 ops) over 5-8 provider flavours and 8 schedule shapes are driven through the real engine one loop iteration at a time; at quiescence both root trees must be equal modulo '.conflicted' names, quiescence must be reached within 3000 steps and no exception may escape a service step. Hazard-seeking histories (1 500 quick, 60 000 thorough) are attributed to listed findings by input predicate or reported.",
+    "claim": "Held on the executed runs: generated one-sided, disjoint two-sided and same-path conflict histories (4-12 ops) over 5-8 provider flavours and 8 schedule shapes are driven through the real engine one loop iteration at a time; at quiescence both root trees must be equal modulo '.conflicted' names, quiescence must be reached within 3000 steps and no exception may escape a service step. A RENCLASH sub-round (a rename onto a name the other side creates at the same time, no sync step before both events are in) and a NEST sub-round (convergence only) are part of every run. Hazard-seeking histories (1 500 quick, 60 000 thorough) are attributed to listed findings by input predicate or reported.",
     "note": 'Trusted: MockProvider as substrate, the tap wrappers, the tree snapshot through listdir/download. Not reached: histories longer than 12 ops, real network timing, schedules finer than one loop iteration, provider flavours outside the matrix.',
     "technique": 'runtime monitoring: convergence oracle over observed quiescent trees of generated histories x schedules',
     "plan": {"quick": {"shards": 16, "timeout": 600, "cases": 12000, "seek": 1500, "nest": 3000},
@@ -70,6 +70,18 @@ def shard(ctx, acc):
                 acc.known_hit(ks[0], W.brief_case(case))
             else:
                 acc.violation("seek:" + probs[0][0], probs[:4], case)
+    # RENCLASH: one side renames a synchronised file to a name the other side gives to a brand-new file in the same window.
+    # HF by the letter; measured tolerated (0 of 2 400 on the pinned tree) when no sync step runs before both sides' events
+    # are in - shapes burst / intake / starveS; with sync steps in between 1-3 % diverge (K2)
+    for i in F.indices(ctx, plan["cases"] // 8):
+        case = F.make_case(ctx.seed, PROP + "renclash", i, families=("RENCLASH",), flavours=F.S.FLAVOURS_ALL,
+                           shapes=("burst", "intake", "starveS"), nops=(2, 6))
+        probs = run(case, acc)
+        if probs is None:
+            continue
+        acc.count("renclash_cases")
+        if probs:
+            acc.violation("renclash:" + probs[0][0], probs[:4], case)
     # NEST: folder renames / moves on one side racing with content work inside them on the other (id-stable providers);
     # C01 only asks for convergence and bounded quiescence here (C04 decides the exact merge on the same family)
     from vlib import nest as N
